@@ -12,6 +12,34 @@ BASE_NOTE = (
 )
 
 CLAIMED = {
+    "C02": dict(
+        text="Refinement theorem: the buffer-scanning loop of data_received (discarding mode, first non-escape reserved byte, FLAG/CANCEL/SUBSTITUTE/XON/XOFF branches, fuel = buffer length) equals a per-byte reference automaton for every "
+        "accumulated prefix and every stream; hence for every stream whose unterminated remainders fit MAX_BUFFER_SIZE and every split into reads the events (payloads up, reset notifications, ACK/NAK bytes) equal those of the "
+        "specification decoder (spec unstuffing, spec frame decoding proved equal to parse_frame on every byte string, receiver rules of C04); chunking independence as corollary; buffer ≤ MAX after every read for any input; an upward delivery "
+        "implies a correctly unstuffed CRC-valid in-sequence DATA frame; no raise while the transport is open. Tie: per-read differential of the real AshProtocol.data_received vs the model and whole-stream oracle vs the reference decoder: "
+        "all streams ≤ 4 bytes over a 10-letter reserved/escape alphabet × partitions, mutated valid conversations × random partitions, long streams in read sizes 1..2·MAX, megabyte-scale garbage.",
+        ref="6 C02",
+        technique="Lean 4 proof (refinement of the scanning loop to a per-byte automaton by induction; parser = spec decoder) + exhaustive/random differential vs real data_received",
+        note="Streams containing an unterminated run longer than MAX_BUFFER_SIZE are covered by the buffer-bound and no-bad-delivery theorems and by the differential, not by the equivalence theorem. tracemalloc-style memory observation is not part of the proof. ",
+    ),
+    "C03": dict(
+        text="Theorems: parse(encode f) = f for every well-formed frame of all six classes (all field values, payload ≤ 256, all 256 reset codes); encode = independent specification encoder (arithmetic control-byte layout, LFSR sequence, byte-wise CRC on naturals); "
+        "every control byte classified as the specification's value ranges say, masks never overlap (all 256 by kernel evaluation); generated PSEUDO_RANDOM_DATA_SEQUENCE = LFSR(0x42, 0xB8) for all 256 bytes; unstuff∘stuff = id and stuffed output has no reserved byte but ESCAPE; "
+        "bytes written = prefix ++ stuffed spec bytes ++ FLAG; CRC-CCITT rejects every 1- and 2-bit error in every accepted frame up to 4095 bytes (XOR-linearity and injectivity of the shift register + kernel-checked 32766-step orbit of the generator); CRC check value 0x29B1. "
+        "Tie: generated masks/reserved set/LFSR table + exhaustive differential (every byte stuffed, every byte pair unstuffed, every control byte × 5 bodies, every control-field value × payload kinds/lengths, all reset codes) and random mutated frames against to_bytes/parse_frame/_stuff_bytes/_unstuff_bytes/_write_frame/crc_hqx; "
+        "every 1-/2-bit corruption of nine short frames on the real parser.",
+        ref="6 C03",
+        technique="Lean 4 proof (induction, kernel evaluation over all 256 control bytes, CRC algebra with decide +kernel orbit) + exhaustive differential vs real encoder/parser",
+        note="binascii.crc_hqx is modelled (bit-serial CRC) and compared by the differential. ",
+    ),
+    "C04": dict(
+        text="Theorems about the model of frame_received for every state and frame: a DATA payload goes up iff frmNum = rx_seq (exactly once); every DATA frame gets exactly one reply carrying the new rx_seq, ACK iff accepted or reTx, NAK otherwise, ACK written before the payload is handed up; "
+        "ACK/NAK/RST cause no delivery or write; RSTACK zeroes both counters, restores the ACK timeout and reports its code once; ERROR reports its code once; for every frame sequence the deliveries and rx_seq equal those of an abstract in-order acceptor (rx_seq = accepted count since last RSTACK mod 8). "
+        "Tie: generated TX_K + differential of the real AshProtocol.frame_received vs the model after every frame (events, counters, ack-future states): every sequence of length ≤ 2 (quick; ≤ 3 thorough) over a 44-letter frame alphabet from each rx_seq, random sequences with futures installed, 200-frame runs; oracle = the statements above on the implementation trace.",
+        ref="6 C04",
+        technique="Lean 4 proof (case analysis + induction over frame sequences against an abstract acceptor) + exhaustive differential vs real frame_received",
+        note="Transport assumed open (a closed transport makes _write_frame raise; modelled as an explicit `raised` event). ",
+    ),
     "C15": dict(
         text="Inductive invariant (groups distinct; every host entry programmed non-zero at its index; every free index cleared; free ∪ used covers the table) proved for every "
         "operation sequence over {start-up, subscribe, unsubscribe}, every table size, every initial table with each group at most once, every answer {OK, rejection, timeout} and every "
